@@ -23,6 +23,9 @@ func isNoopCallee(name string) (string, bool) {
 	if strings.HasPrefix(name, "github.com/semihalev/zlog/v2.") || strings.HasPrefix(name, "(*github.com/semihalev/zlog/v2.") {
 		return "zlog", true
 	}
+	if strings.HasPrefix(name, "(*github.com/semihalev/sdns/internal/metric.") || strings.HasPrefix(name, "github.com/semihalev/sdns/internal/metric.") {
+		return "metrics", true
+	}
 	if strings.HasPrefix(name, "(github.com/prometheus/client_golang/prometheus.") || strings.HasPrefix(name, "(*github.com/prometheus/client_golang/prometheus.") {
 		return "metrics", true
 	}
